@@ -296,6 +296,41 @@ def run(rep, tier, rng):
                 rep.violation("create_subset does not hold the same vectors under the same keys with the same algebra, independent of the original",
                               {"case": {"alg": al, "strict": strict}})
 
+    # ---- populate left unspecified (the argument is omitted): every entry point warns about the missing keys and adds nothing ----
+    from nengo_spa.connectors import as_ast_node as _aan
+    for al in algs.ALGS:
+        A = algs.alg_obj(al)
+        dd = 4
+        s_ = spa.Vocabulary(dd, algebra=A, pointer_gen=np.random.RandomState(3))
+        s_.populate("A; B")
+        entry = {
+            "source.transform_to(target)": lambda t: s_.transform_to(t),
+            "source['A'].translate(target)": lambda t: s_["A"].translate(t),
+            "spa.translate(source['A'], target)": lambda t: spa.translate(s_["A"], t),
+            "PointerSymbol('A', TVocabulary(source)).translate(target)": lambda t: PointerSymbol("A", TVocabulary(s_)).translate(t),
+            "spa.translate(PointerSymbol('A', TVocabulary(source)), target)": lambda t: spa.translate(PointerSymbol("A", TVocabulary(s_)), t),
+            "spa.translate(State(source), target)": lambda t: spa.translate(spa.State(s_, subdimensions=1), t),
+            "as_ast_node(State(source)).translate(target)": lambda t: _aan(spa.State(s_, subdimensions=1)).translate(t),
+        }
+        for label, fn in entry.items():
+            t_ = spa.Vocabulary(dd, algebra=A, pointer_gen=np.random.RandomState(4))
+            t_.populate("A")
+            with warnings.catch_warnings(record=True) as rec:
+                warnings.simplefilter("always")
+                with spa.Network():
+                    o = c.outcome(lambda: fn(t_))
+            warned = any(issubclass(w.category, NengoWarning) for w in rec)
+            rep.case(("populate-omitted", al, label))
+            rep.count("populate-omitted")
+            if o[0] != "ok" or not warned or list(t_.keys()) != ["A"]:
+                rep.violation(f"{label} with populate omitted and key B missing in the target: raised={o[0] if o[0] != 'ok' else None}, "
+                              f"warned={warned}, target keys afterwards {list(t_.keys())} (expected: a warning, keys unchanged) ({al})",
+                              {"case": {"alg": al, "entry_point": label},
+                               "python": PRE + "from nengo.exceptions import NengoWarning\nsource = spa.Vocabulary(16); source.populate('A; B')\n"
+                               "target = spa.Vocabulary(16); target.populate('A')\nwith warnings.catch_warnings(record=True) as rec:\n    warnings.simplefilter('always')\n"
+                               "    with spa.Network():\n        " + label.replace("as_ast_node", "spa.connectors.as_ast_node").replace("State(", "spa.State(") + "\n"
+                               "assert any(issubclass(w.category, NengoWarning) for w in rec), 'no warning about the missing key'\nassert list(target.keys()) == ['A']\n"})
+
     verdicts = c.coq_eval("C13", "cases", IMPORTS, exprs, shard=150)
     for ok, m in zip(verdicts, meta):
         if ok:
